@@ -1010,7 +1010,7 @@ class TreeSim(WorldBase):
         else:
             other = Fiber([dec_coord(c) for c in a["coords"]], list(a["vals"]))
         # fiber *= scalar scales the stored boxes in place: a handle taken earlier stays the stored payload
-        self.last_fimul_scalar = "scalar" in a and a["scalar"] not in (0,)
+        self.last_fimul_scalar = "scalar" in a          # (also for 0: the boxes stay, holding explicit zeros)
         try:
             f.__imul__(other)
         except Exception as e:
@@ -1401,7 +1401,17 @@ class TreeSim(WorldBase):
                 lazy = zf.__lshift__(af, start_pos=sp)        # only a shortcut for the search in z
                 self.probe("populate_with_start_pos")
             else:
-                lazy = zf << af
+                # the program may have built `z << a` for these two fibers before and walk the same object again:
+                # a second walk is a populate like the first
+                keep = self.__dict__.setdefault("_pop_objects", {})
+                key = (id(zf), id(af))
+                old = keep.get(key)
+                if a.get("reuse") and old is not None and old[0] is zf and old[1] is af:
+                    lazy = old[2]
+                    self.probe("populate_object_walked_again")
+                else:
+                    lazy = zf << af
+                    keep[key] = (zf, af, lazy)
             t.gen = iter(lazy)
         except Exception as e:
             t.done = True
@@ -1410,7 +1420,8 @@ class TreeSim(WorldBase):
             return self.unexpected("C05", "populate", e)
         targets.add(zs)
         zfmt = zf.getOwner().getFormat() if zf.getOwner() is not None else "C"
-        if zfmt == "U" and self.prop == "C05":
+        reused = bool(a.get("reuse")) and t.gen is not None and self.__dict__.get("_pop_objects", {}).get((id(zf), id(af)), (None,))[0] is zf
+        if zfmt == "U" and self.prop == "C05" and not reused:       # (the range is set when `z << a` is built, not per walk)
             # a destination whose rank is declared uncompressed presents its whole active range later on:
             # that range is the one the populate defines (the source's)
             self.probe("populate_U_destination")
@@ -2475,7 +2486,14 @@ class TreeSim(WorldBase):
             tid = self.next_tid
             self.next_tid += 1
             a = {"z": zs, "a": as_, "zpre": enc_point(zpre), "apre": enc_point(apre)}
-            if self.prop == "C05" and g.random() < 0.3:
+            if self.prop == "C05" and getattr(self, "_pop_objects", None) and g.random() < 0.5:
+                # prefer a pair of fibers the program has populated before, and walk that same object again
+                zfs = {id(x): pre for pre, x in ((pp, ob.find_fiber(zsl.root, pp)) for pp in [zpre]) if x is not None}
+                for (zi, ai), (zf0, af0, _) in list(self._pop_objects.items()):
+                    if zi in zfs and ob.find_fiber(asl.root, apre) is af0:
+                        a["reuse"] = True
+                        break
+            if self.prop == "C05" and "reuse" not in a and g.random() < 0.3:
                 # the optional search shortcut: everything of z before this position is smaller than a's first coordinate
                 zf, af = ob.find_fiber(zsl.root, zpre), ob.find_fiber(asl.root, apre)
                 if zf is not None and af is not None and af.coords and all(isinstance(c, int) for c in list(zf.coords) + list(af.coords)):
